@@ -37,12 +37,16 @@ RediAccepted ==
      ELSE {C.subs[k] : k \in {j \in 1..Len(C.subs) :
               LET n == C.counts[BaseIdx4(C.subs[j][2])] IN
               n >= C.minCovAlt /\ n * C.minFreq[2] >= C.minFreq[1] * total}}
+(* one record per (transcript in which the site is exonic, accepted substitution), written on    *)
+(* that transcript's own gene at the gene position of the site                                    *)
 RediOk ==
   LET want == {<<k, a>> : k \in {j \in 1..Len(C.txs) : Exonic(C.txs[j], C.pos)}, a \in RediAccepted}
       got == {<<C.records[k].tx, <<C.records[k].ref, C.records[k].alt>>>> : k \in 1..Len(C.records)}
   IN
   /\ Clause("redi_records", got = want /\ Len(C.records) = Cardinality(want))
-  /\ Clause("redi_position", \A k \in 1..Len(C.records) : C.records[k].start = G2Gene(C.gene, C.pos))
+  /\ Clause("redi_position", \A k \in 1..Len(C.records) :
+        /\ C.records[k].gene = C.txs[C.records[k].tx].gene
+        /\ C.records[k].start = G2Gene(C.genes[C.records[k].gene], C.pos))
 
 Verdict == (IF C.tool = "vep" THEN VepOk ELSE RediOk) /\ PrintT(<<"V", i, "done">>)
 =============================================================================
